@@ -80,3 +80,39 @@ def evaluate(
 
 def both(src: str, bindings: Optional[dict] = None, **kw: Any) -> Tuple[Any, Any]:
     return evaluate(src, bindings, "I", **kw), evaluate(src, bindings, "C", **kw)
+
+
+# ---------------------------------------------------------------------------
+# Cached programs: compile once, evaluate many times with different bindings.
+
+_PROGRAMS: Dict[Tuple[str, str], Any] = {}
+
+
+def program(runner: str, src: str, functions: Any = None) -> Any:
+    key = (runner, src)
+    p = _PROGRAMS.get(key)
+    if p is None:
+        e = env(runner)
+        p = e.program(e.compile(src), functions=functions)
+        _PROGRAMS[key] = p
+    return p
+
+
+def run_cached(runner: str, src: str, bindings: dict, want_value: bool = False) -> Any:
+    """Outcome of a cached program on bindings."""
+    try:
+        p = program(runner, src)
+    except CELParseError as ex:
+        o = ("parse_error", ex.line, ex.column)
+        return (o, ex) if want_value else o
+    except Exception as ex:
+        o = ("crash", type(ex).__name__, "program")
+        return (o, ex) if want_value else o
+    try:
+        raw = p.evaluate(dict(bindings))
+        o = outcome.value_outcome(raw)
+    except CELEvalError as ex:
+        raw, o = ex, ("error",)
+    except Exception as ex:
+        raw, o = ex, ("crash", type(ex).__name__, "evaluate")
+    return (o, raw) if want_value else o
